@@ -9,7 +9,7 @@
 //    7 k cell*k            runShiftsOnCells      8 k cell*k  runReorderingOnCells   (cells: distinct optimised cells)
 // result: "NOLEG" | "INIT v ;placement / <op result> / ..."; op result for 0,1,2:
 //    "B found ; ncand (feasible [c x y]*)* ; value ;placement ; check"   (candidate positions as positionsOnSwap/positionOnInsert give them BEFORE the call)
-//    for the passes: "P value ;placement ; check"
+//    for the passes: "P value ;placement ; check"; for runShiftsOnCells: "S <row structure before> | k (cell newx)*k ; value ;placement ; check"
 // placement = x y orient of every cell after DetailedPlacer::exportPlacement into a copy of the circuit.
 #include "vh.hpp"
 #include <optional>
@@ -21,6 +21,12 @@
 
 static std::string statePl(DetailedPlacer &pl, const Circuit &base) {
   Circuit c = base; pl.exportPlacement(c); return showPlacement(c);
+}
+// row structure as the shift model needs it: "nrows (minX maxX ncells (id x w)*)*"
+static std::string rowsDump(const DetailedPlacement &dp) {
+  std::ostringstream s; s << dp.nbRows();
+  for (int r = 0; r < dp.nbRows(); ++r) { auto cs = dp.rowCells(r); s << " " << dp.rows()[r].minX << " " << dp.rows()[r].maxX << " " << cs.size(); for (int c : cs) s << " " << c << " " << dp.cellX(c) << " " << dp.cellWidth(c); }
+  return s.str();
 }
 static std::string chk(DetailedPlacer &pl) { try { pl.check(); return "ok"; } catch (std::exception &e) { return std::string("CHECKFAIL ") + e.what(); } }
 
@@ -98,8 +104,11 @@ int main(int argc, char **argv) {
           } else {
             int kk = (int)r.nx(); std::vector<int> cells; std::unordered_set<int> seen;
             for (int j = 0; j < kk; ++j) { int cc = cellOf(r.nx()); if (cc >= 0 && seen.insert(cc).second) cells.push_back(cc); }
-            if (ty == 7) pl.runShiftsOnCells(cells); else pl.runReorderingOnCells(cells);
-            printf(" / P");
+            if (ty == 7) {
+              std::string before = rowsDump(dp);
+              pl.runShiftsOnCells(cells);
+              printf(" / S %s | %zu", before.c_str(), cells.size()); for (int cc : cells) printf(" %d %d", cc, dp.cellX(cc));
+            } else { pl.runReorderingOnCells(cells); printf(" / P"); }
           }
           printf(" ; %lld ;%s ; %s", pl.value(), statePl(pl, c).c_str(), chk(pl).c_str());
         } catch (std::exception &e) { printf(" / THROW %s", e.what()); break; }
